@@ -1,4 +1,5 @@
 import TracklibVerif.Lemmas.ExprRpn
+import TracklibVerif.Lemmas.ExprExact
 /-! # C02 — algebraic feature expressions evaluate to ordinary arithmetic on the features
 
 Property theorems only (helpers: `Lemmas/Rpn.lean`, `Lemmas/Expr.lean`, `Lemmas/ExprRpn.lean`).
@@ -139,7 +140,31 @@ theorem operate_string_value (tr : Tr α) (e : Ex) (v : Val α)
     doublePrime_id _ hgood]
   exact h
 
+/-- **T5 (tree semantics = ordinary pointwise arithmetic)**: under the four laws of `Laws`
+(`x+s = s+x`, `x*s = s*x`, `x*(1/s) = x/s`, `(1/x)*s = s/x` for non-zero divisors — true in every
+field, with or without a NaN element; *not* exactly true of IEEE doubles, where the last two hold up
+to rounding) the evaluator's semantics of a tree — with its literal folding and its separate
+feature∘number / number∘feature operator tables — is what one gets by evaluating the tree observation
+by observation with numbers as constant vectors (`denote`). A wrong entry in one of the scalar tables
+(e.g. `sr-` bound to the non-reversed operator) makes this statement false. -/
+theorem tree_semantics_pointwise (L : Laws α) (tr : Tr α) (hs : WellSized tr) (hn : tr.n ≠ 0) (e : Ex) (v : Val α)
+    (hd : denoteM tr e = .ok v) : denote tr e = .ok (v.toVec tr.n) :=
+  (denoteM_pointwise L tr hs hn e v hd).1
+
+/-- **C02, end to end on the model** (from the rewritten string on): if evaluating the tree of `e`
+observation by observation gives… whatever the evaluator's semantics gives (`hd`), then `operate`
+returns exactly the pointwise value `denote tr e` and leaves the track as it was. -/
+theorem operate_string_pointwise (L : Laws α) (tr : Tr α) (e : Ex) (v : Val α)
+    (hw : WFx e) (hp : PlainNames e) (hq : NoQuote e) (hs : WellSized tr)
+    (hn : tr.n ≠ 0) (hnt : NoTemps tr) (hl : NoLitNames tr) (hd : denoteM tr e = .ok v) :
+    ∃ vec, denote tr e = .ok vec ∧ operateRewritten tr (stmtString outputName e) false = (.ok (some vec), tr) :=
+  ⟨v.toVec tr.n, tree_semantics_pointwise L tr hs hn e v hd, operate_string_value tr e v hw hp hq hn hnt hl hd⟩
+
 /-! ## non-vacuity -/
+
+/-- the laws are those of exact arithmetic: rationals with a NaN element satisfy them -/
+example : Laws (Option Rat) := exactQ_laws
+
 
 /-- a toy exact scalar (integers; `pow` by repeated multiplication, no NaN) for the examples -/
 instance toy : Scalar Int where
